@@ -28,6 +28,7 @@ package memfs
 import (
 	"io/fs"
 	"os"
+	"strings"
 	"time"
 
 	"github.com/avfs/avfs"
@@ -770,39 +771,76 @@ func (vfs *MemFS) removeAll(parent *dirNode) error {
 func (vfs *MemFS) Rename(oldpath, newpath string) error {
 	const op = "rename"
 
+	// Renames are serialized (as cross directory renames are in the Linux kernel),
+	// so that the relative position of the two parent directories can't change while they are locked.
+	vfs.renameMu.Lock()
+	defer vfs.renameMu.Unlock()
+
 	oParent, oChild, oPI, oErr := vfs.searchNode(oldpath, slmLstat)
 	if oErr != vfs.err.FileExists {
 		return &os.LinkError{Op: op, Old: oldpath, New: newpath, Err: oErr}
 	}
 
 	nParent, nChild, nPI, nErr := vfs.searchNode(newpath, slmLstat)
-	if nErr != vfs.err.FileExists && !vfs.isNotExist(nErr) {
+	if nErr != vfs.err.FileExists && !(vfs.isNotExist(nErr) && nPI.IsLast()) {
 		return &os.LinkError{Op: op, Old: oldpath, New: newpath, Err: nErr}
 	}
 
-	oParent.mu.Lock()
-	defer oParent.mu.Unlock()
+	oPath, nPath := oPI.Path(), nPI.Path()
+	if oPath == nPath {
+		return nil
+	}
 
-	if !oParent.checkPermission(avfs.OpenWrite, vfs.User()) {
+	sep := string(vfs.PathSeparator())
+
+	// The root directory can't be moved, and a directory can't be moved below itself.
+	if oChild == node(oParent) || strings.HasPrefix(nPath, strings.TrimSuffix(oPath, sep)+sep) {
+		return &os.LinkError{Op: op, Old: oldpath, New: newpath, Err: vfs.err.InvalidArgument}
+	}
+
+	// The root directory can't be replaced.
+	if nChild == node(nParent) {
+		err := vfs.err.FileExists
+		if vfs.OSType() == avfs.OsWindows {
+			err = avfs.ErrWinAccessDenied
+		}
+
+		return &os.LinkError{Op: op, Old: oldpath, New: newpath, Err: err}
+	}
+
+	// Lock the parent directories, an ancestor before its descendant, like every other function.
+	first, second := oParent, nParent
+	if oPD, nPD := vfs.Dir(oPath), vfs.Dir(nPath); strings.HasPrefix(oPD, strings.TrimSuffix(nPD, sep)+sep) {
+		first, second = nParent, oParent
+	}
+
+	first.mu.Lock()
+	defer first.mu.Unlock()
+
+	if second != first {
+		second.mu.Lock()
+		defer second.mu.Unlock()
+	}
+
+	if !oParent.checkPermission(avfs.OpenWrite, vfs.User()) || !nParent.checkPermission(avfs.OpenWrite, vfs.User()) {
 		return &os.LinkError{Op: op, Old: oldpath, New: newpath, Err: vfs.err.PermDenied}
 	}
 
-	if nParent != oParent {
-		nParent.mu.Lock()
-		defer nParent.mu.Unlock()
-
-		if !nParent.checkPermission(avfs.OpenWrite, vfs.User()) {
-			return &os.LinkError{Op: op, Old: oldpath, New: newpath, Err: vfs.err.PermDenied}
-		}
+	// Check that nothing has changed between the search and the locks.
+	oPart, nPart := oPI.Part(), nPI.Part()
+	if oParent.children[oPart] != oChild || (nChild != nil && nParent.children[nPart] != nChild) ||
+		(nChild == nil && nParent.children[nPart] != nil) {
+		return &os.LinkError{Op: op, Old: oldpath, New: newpath, Err: vfs.err.NoSuchFile}
 	}
 
-	if oPI.Path() == nPI.Path() {
+	if nChild == oChild {
+		// oldpath and newpath are hard links to the same file.
 		return nil
 	}
 
 	switch oChild.(type) {
 	case *dirNode:
-		if !vfs.isNotExist(nErr) {
+		if nChild != nil {
 			if vfs.OSType() == avfs.OsWindows {
 				nErr = avfs.ErrWinAccessDenied
 			}
@@ -817,7 +855,9 @@ func (vfs *MemFS) Rename(oldpath, newpath string) error {
 
 		switch nc := nChild.(type) {
 		case *fileNode:
+			nc.mu.Lock()
 			nc.delete()
+			nc.mu.Unlock()
 		default:
 			err := error(avfs.ErrFileExists)
 			if vfs.OSType() == avfs.OsWindows {
@@ -828,8 +868,8 @@ func (vfs *MemFS) Rename(oldpath, newpath string) error {
 		}
 	}
 
-	nParent.addChild(nPI.Part(), oChild)
-	oParent.removeChild(oPI.Part())
+	nParent.addChild(nPart, oChild)
+	oParent.removeChild(oPart)
 
 	return nil
 }
